@@ -95,6 +95,18 @@ CLAIMED = {
             "deferred_until settings x 3 time-base kinds (whole periods after the base, now < next <= now+period); expiry "
             "predicate of Parameters / buckets / Job at expiry -1us, 0, +1us, naive and aware.",
             "Grids, not all integers; cron excluded (croniter not installed).", "DESIGN.md 4 C19"),
+    "C18": ("model_checking", "exhaustive enumeration of provider DAGs x flavours x override histories through the real resolver",
+            "All provider graphs with <= 4 nodes (depth <= 3, fan-out <= 2, diamonds) x actor roots x sync/async/message "
+            "flavours x payload parameters x override plans (before / between two jobs; fewer, more, other "
+            "sub-dependencies) x both converters through _Processor.actor_run against a reference evaluation; every "
+            "failing-provider placement through a real worker (body not entered, retry rules); bad declarations rejected.",
+            "run_in_process providers excluded; in-memory broker for the worker cases.", "DESIGN.md 4 C18"),
+    "C09": ("model_checking", "exhaustive matrix of duration assignments x limits x arrivals on real workers + enqueue sweep",
+            "tasks_limit 1-3 x 1-2 queues x every assignment of 4 durations to 3-4 messages x failure pattern x arrival "
+            "pattern x broker, and a late message enqueued at every loop iteration of the saturated window: bodies in "
+            "progress never exceed the limit on the full entry/exit log, every job executed within the bound, a free "
+            "slot is refilled within 0.5 s.",
+            FAKES + " Liveness as bounded response.", "DESIGN.md 4 C09"),
 }
 
 PENDING_REASON = "check not built yet in this revision of /verif (see DESIGN.md section 4 for the plan)"
